@@ -304,7 +304,7 @@ class World:
         if rng.random() < 0.12 * self.profile["bad"]:
             bad = True
             y = rng.choice(["wrongdigest", "badctype", "othertype", "truncated", "trailing", "badref", "notjson",
-                            "toolarge", "typemismatch", "bodytype"])
+                            "toolarge", "typemismatch", "bodytype", "baddigestref", "wrongtype", "wrongtype"])
             if y == "wrongdigest":
                 ref = self.wrong_digest(alg, body)
             elif y == "badctype":
@@ -329,6 +329,33 @@ class World:
                 ref = rng.choice([TAGS[0], dg(alg, body)])
             elif y == "typemismatch":
                 ctype = rng.choice([MT_DOCK_M, MT_DOCK_I, MT_OCI_I, MT_OCI_M])
+            elif y == "baddigestref" and not missing:
+                # a referenced digest that is not a digest (truncated, unknown algorithm, upper-case hex, empty)
+                j = json.loads(body)
+                pool = [x for x in [j.get("config")] + list(j.get("layers") or []) + list(j.get("manifests") or []) if isinstance(x, dict) and x.get("digest")]
+                if pool:
+                    x = rng.choice(pool)
+                    d0 = x["digest"]
+                    x["digest"] = rng.choice([d0[:-3], "md5:" + d0.split(":")[1][:32], d0.split(":")[0] + ":" + d0.split(":")[1].upper(), d0.split(":")[1], "sha256:", d0 + "00"])
+                    body = json.dumps(j).encode()
+                    ref = rng.choice([TAGS[0], TAGS[1], dg(alg, body)])
+                else:
+                    bad = False
+            elif y == "wrongtype" and not missing:
+                # valid JSON with a member of the wrong type: encoding/json reports an error but has filled in what it could
+                j = json.loads(body)
+                z = rng.choice(["schema", "size", "ann", "layersobj"])
+                if z == "schema":
+                    j["schemaVersion"] = "2"
+                elif z == "size" and (j.get("layers") or j.get("manifests") or j.get("config")):
+                    tgt = rng.choice([x for x in [j.get("config")] + list(j.get("layers") or []) + list(j.get("manifests") or []) if isinstance(x, dict)])
+                    tgt["size"] = str(tgt.get("size", 0))
+                elif z == "ann":
+                    j["annotations"] = dict(j.get("annotations") or {}, n=7)
+                else:
+                    j["schemaVersion"] = [2]
+                body = json.dumps(j).encode()
+                ref = rng.choice([TAGS[0], TAGS[1], TAGS[2], dg(alg, body)])
             elif y == "bodytype":
                 # the body declares a media type that is not a manifest type (or the other kind) whatever the header says
                 j = json.loads(body)
